@@ -353,7 +353,7 @@ def check(ctx):
     fn = P.method(S, 'get_net_value_of_assets')[1]
     o.count()
     r = [x for x in ast.walk(fn) if isinstance(x, ast.Return)]       # every way out, not only the last statement
-    oks = False
+    oks = via_find = False
     from ..norm import single_defs
     rv = subst(r[0].value, single_defs(fn)) if len(r) == 1 and r[0].value is not None else None      # a local naming the filtered registry is that registry
     if rv is not None and isinstance(rv, ast.Call) and ast.unparse(rv.func) == 'sum' and len(rv.args) == 1 and isinstance(rv.args[0], (ast.GeneratorExp, ast.ListComp)):
@@ -370,6 +370,9 @@ def check(ctx):
                file=S.mod.path, line=fn.lineno)
     else:
         o.witness('net-value')
+        if via_find:
+            obs.append(ctx.shared('c20', 'C20.6', 'C16.7', 'the net value is summed over self.find_assets(subtype=Asset): it is the sum over the registered assets of this system only if '
+                                  'that look-up returns exactly the registered assets of the system it is called on'))
     return obs
 
 
